@@ -18,7 +18,7 @@ func init() {
 			"R3 every hop of the spool pipeline forwards each value exactly once: Writer (InRT/InBulk → queueBuffer), Buffer (queueBuffer → queue.Put), Ingest (each element, in order, to InBulk); " +
 			"R4 unspooling is enabled only while a connection exists, spooling is on and nothing was dropped in this or the previous period, and the unspool case sends to that connection; " +
 			"R5 the disk queue's reader and writer agree on record format and segment-roll condition and the read position advances only after delivery; " +
-			"(with C06.R4 for the while-down dispositions).",
+			"R8 every line received by the loop or taken back from the spool ends in exactly one counted disposition (C06.R4).",
 		NotDecided: "that the 10 s keep-safe window exceeds failure-detection latency (timing); duplicates versus losses under real schedules; disk write errors (queue.Put's error is discarded — a different fault model).",
 		Rules: []RuleDef{
 			{ID: "C07.R1", Min: 3, Doc: "redo on dead connection: path enumeration of the relay loop head (from the loop header to the select) and of collectRedo", Run: c07r1},
@@ -27,6 +27,7 @@ func init() {
 			{ID: "C07.R5", Min: 3, Doc: "the disk queue behind the spool hands back what it was given: reader and writer agree on the record format and segment-roll condition, and the read position only advances after delivery (rules C09.R5 and C09.R2 evaluated for this property as well)", Run: func(c *Check) { c09r5(c); c09r2(c) }},
 			{ID: "C07.R6", Min: 5, Doc: "keep-safe generations: every store into keepSafe.safeRecent is append(safeRecent, …), a fresh make or nil, every store into safeOld is the current safeRecent, a fresh make or nil; after safeOld = safeRecent the recent generation gets a fresh backing array before anything else can append; Add appends its argument; GetAll returns append(safeOld, safeRecent...)", Run: c07r6},
 			{ID: "C07.R7", Min: 1, Doc: "keep-safe retention: the period every NewKeepSafe call is given is a constant of at least 10 s (directly, or a package variable that is only ever assigned such constants) — lines written less than 10 s before an outage is detected are still available for replay, whatever flush period is configured", Run: c07r7},
+			{ID: "C07.R8", Min: 3, Doc: "nothing leaves uncounted: every line the relay loop receives from In or takes back from the spool ends in exactly one disposition (queued to the connection, queued to the spool, or counted in the slow-connection / slow-spool / connection-down counter) — a line taken from the disk queue and not sent is gone, so the unspool case must count it (rule C06.R4 evaluated for this property as well)", Run: c06r4},
 			{ID: "C07.R4", Min: 2, Doc: "unspool gating: the assignment toUnspool = spool.Out is dominated by the true edges of conn != nil, Spool, !SlowLastLoop, !SlowNow; the other assignment is nil", Run: c07r4},
 		},
 	})
